@@ -323,6 +323,8 @@ def compare_states(model, expect):
         if isinstance(mo, dict) and "threshold" in mo and "threshold" in expect["ok"]:
             if mo["threshold"] != expect["ok"]["threshold"]:
                 return f"threshold model {mo['threshold']} vs impl {expect['ok']['threshold']}"
+        if isinstance(mo, dict) and mo.get("fpv_link") is False:
+            return "fpv_link: firstPlaceVotes of the model differs from the tallies of the initial count state (hypothesis of C07_droop_psc_fractional)"
         return None
     if "exn" in model and "exn" in expect and model["exn"] == expect["exn"]:
         return None
